@@ -13,7 +13,7 @@ pub fn mon() -> Mon {
         run,
         finish,
         replay,
-        rule: "All 2^24 three-byte prefixes, bare, on two contexts with different address/configuration/history; a 2^20 (quick) or full 2^24 (thorough) pass with two seeded continuations of random length and content each; inputs of length 0, 1, 2 with every byte value. Oracle: byte[1] == 0x0F ? Ok(byte[2] + 4) : Err((Invalid, _)); inputs shorter than 3 must yield an error value (no panic, no Ok). Distinct non-trivial = distinct (prefix, continuation) inputs judged (hash set, capped).",
+        rule: "All 2^24 three-byte prefixes, bare, on two contexts with different address/configuration/history; a 2^20 (quick) or full 2^24 (thorough) pass with two seeded continuations of random length and content each; inputs of length 0, 1, 2 with every byte value; probes *related* to a packet the context has just decoded or processed (same source and tag, other flags, other byte counts). Oracle: byte[1] == 0x0F ? Ok(byte[2] + 4) : Err((Invalid, _)); inputs shorter than 3 must yield an error value (no panic, no Ok). Distinct non-trivial = distinct (prefix, continuation) inputs judged (hash set, capped).",
         assumptions: &["contexts are validly configured; the probe takes no other input"],
         children: no_children,
     }
@@ -122,6 +122,51 @@ fn run(cfg: &RunCfg) -> Report {
                         rep.nontrivial(crate::rng::hash_bytes(17, &buf));
                     }
                 }
+            }
+            // probe after decode: the context first decodes / processes a packet with arbitrary
+            // transport flags, then probes inputs *related* to it (same source, tag, flags variants,
+            // other byte counts) - the answer must still be the function of the first three bytes
+            let rounds = if cfg.is_small() { 20 } else { cfg.pick(40_000, 1_000_000) / ns as u64 };
+            let mut rb = [0u8; 64];
+            for r in 0..rounds {
+                let mut p = crate::corpus::gen_valid(&mut rng);
+                if p.len() < 10 {
+                    continue;
+                }
+                p[7] = match rng.below(4) {
+                    0 => 0x80 | (rng.byte() & 0x3F), // SOM=1, EOM=0
+                    1 => rng.byte() & 0x3F,          // middle packet
+                    _ => rng.byte(),
+                };
+                crate::refmodel::forge::fix_pec(&mut p);
+                let ctx = if r % 2 == 0 { &*a } else { &*b };
+                let which = if r % 2 == 0 { "A" } else { "B" };
+                if rng.chance(1, 2) {
+                    let _ = decode(ctx, &p);
+                } else {
+                    let _ = process(ctx, &p, &mut rb);
+                }
+                for _ in 0..4 {
+                    let mut q = p.clone();
+                    match rng.below(5) {
+                        0 => q[7] = rng.byte() & 0x3F,
+                        1 => q[7] = (p[7] & 0x0F) | (rng.byte() & 0x30),
+                        2 => q[2] = rng.byte(),
+                        3 => {
+                            q[2] = rng.byte();
+                            q[7] = (p[7] & 0x0F) | (rng.byte() & 0x30);
+                        }
+                        _ => {
+                            q[1] = rng.byte();
+                        }
+                    }
+                    if rng.chance(1, 3) {
+                        q.truncate(3 + rng.below(q.len() as u64 - 2) as usize);
+                    }
+                    check(ctx, which, &q, &mut rep);
+                    rep.nontrivial(crate::rng::hash_bytes(0x17D, &q));
+                }
+                rep.class("probe-after-decode");
             }
             rep.class_n("prefixes-bare", bare);
             let _ = &mut rng;
